@@ -8,6 +8,9 @@ import (
 	"math/rand"
 	"os"
 	"sort"
+	"strings"
+	"sync/atomic"
+	"time"
 )
 
 type driver func(a *Args)
@@ -64,6 +67,9 @@ func main() {
 	fs.StringVar(&a.Out, "out", "", "output trace file (NDJSON)")
 	fs.IntVar(&a.N, "n", 0, "size parameter")
 	fs.IntVar(&chunkFlag, "chunk", 0, "events per trace file")
+	fs.StringVar(&markerPath, "marker", "", "file in which the index of the case about to run is recorded")
+	fs.StringVar(&crashedFlag, "crashed", "", "cases that killed an earlier worker: idx:kind,...")
+	fs.IntVar(&resumeFrom, "resume", 0, "fast-forward (generate but do not execute or emit) the guarded cases below this index")
 	fs.IntVar(&a.Part, "part", 0, "partition index")
 	fs.IntVar(&a.Of, "of", 1, "number of partitions")
 	fs.Parse(os.Args[2:])
@@ -105,3 +111,66 @@ func safely(f func()) (panicked bool) {
 	f()
 	return false
 }
+
+// Worker protocol for inputs that may kill the process (out of memory, hang): before a guarded case
+// runs its index is written to the marker file; the orchestrator restarts the driver with the list of
+// cases that killed earlier workers, which are then reported (outcome oom / timeout / crash) instead
+// of executed.
+var (
+	markerPath  string
+	crashedFlag string
+	crashedMap  map[int]string
+	resumeFrom  int
+)
+
+func guardedCase(idx int) (skipKind string) {
+	if crashedMap == nil {
+		crashedMap = map[int]string{}
+		for _, part := range strings.Split(crashedFlag, ",") {
+			var i int
+			var k string
+			if n, _ := fmt.Sscanf(strings.Replace(part, ":", " ", 1), "%d %s", &i, &k); n == 2 {
+				crashedMap[i] = k
+			}
+		}
+	}
+	if idx < resumeFrom {
+		return "skip"
+	}
+	if k, ok := crashedMap[idx]; ok {
+		return k
+	}
+	if markerPath != "" {
+		if markerFile == nil {
+			f, err := os.OpenFile(markerPath, os.O_CREATE|os.O_WRONLY|os.O_TRUNC, 0o644)
+			if err != nil {
+				fatal("marker: %v", err)
+			}
+			markerFile = f
+			go watchdog()
+		}
+		markerFile.WriteAt([]byte(fmt.Sprintf("%-14d\n", idx)), 0)
+		caseStart.Store(time.Now().UnixNano())
+	}
+	return ""
+}
+
+var (
+	markerFile *os.File
+	caseStart  atomic.Int64
+)
+
+// watchdog: a guarded case running for more than 8 s ends the worker (exit 97); the orchestrator
+// records the case as a timeout and resumes after it.
+func watchdog() {
+	for {
+		time.Sleep(250 * time.Millisecond)
+		if st := caseStart.Load(); st != 0 && time.Since(time.Unix(0, st)) > 8*time.Second {
+			fmt.Fprintln(os.Stderr, "WATCHDOG: case exceeded 8 s")
+			os.Exit(97)
+		}
+	}
+}
+
+// guardedDone is called when the guarded part of a driver is over.
+func guardedDone() { caseStart.Store(0) }
